@@ -37,10 +37,12 @@ type World struct {
 	termMax map[types.UID]int
 	// recreated: terminating pods whose replacement was already created (EarlyRecreate)
 	recreated map[types.UID]bool
-	regen   int
-	lagging []*v1.Pod // pod updates of successful binds that become visible in the next step
+	regen     int
+	lagging   []*v1.Pod // pod updates of successful binds that become visible in the next step
 	// Log of what the world did in the last step (for replay files)
 	Log []string
+	// ClaimWrites counts ResourceClaim status updates (DRA, see dra.go)
+	ClaimWrites int
 }
 
 func New(st *store.Store, rng *rand.Rand, opts spec.WorldOpts) *World {
@@ -156,6 +158,9 @@ func (w *World) Step() {
 
 	// 3. reservation pods without consumers are removed (what the binder's sync does)
 	w.gcReservations()
+
+	// 4. DRA: resource claim controller + garbage collection of generated claims (dra.go)
+	w.reconcileClaims()
 }
 
 func ownerUID(br *schedulingv1alpha2.BindRequest, p *v1.Pod) string {
@@ -169,6 +174,15 @@ func ownerUID(br *schedulingv1alpha2.BindRequest, p *v1.Pod) string {
 
 func (w *World) bind(p *v1.Pod, br *schedulingv1alpha2.BindRequest, node *v1.Node, o *spec.Objects) {
 	p = p.DeepCopy()
+	// DRA (dra.go): the binder writes the claims before it binds the pod; a claim it cannot write fails the attempt
+	if err := w.bindClaims(p, br); err != nil {
+		br.Status.Phase = schedulingv1alpha2.BindRequestPhaseFailed
+		br.Status.FailedAttempts++
+		br.Status.Reason = "world: " + err.Error()
+		_ = w.St.Tracker.Update(brGVR, br, br.Namespace)
+		w.logf("bind failed %s/%s: %v", br.Namespace, br.Name, err)
+		return
+	}
 	p.Spec.NodeName = node.Name
 	if w.Rng.Float64() < 0.85 {
 		p.Status.Phase = v1.PodRunning
@@ -285,6 +299,7 @@ func (w *World) recreate(old *v1.Pod) {
 			delete(p.Labels, k)
 		}
 	}
+	w.recreateClaims(old, p) // DRA (dra.go)
 	_ = w.St.Tracker.Add(p)
 	w.logf("recreated %s as %s", old.Name, p.Name)
 }
